@@ -21,6 +21,7 @@ McLinks == {<<1, "e2", 2, "e1">>, <<2, "e2", 1, "e2">>}
 McKindsAll   == {<<k1, k2>> : k1 \in Kinds, k2 \in {"solid", "fluid", "inert"}}
 McKindsEmit  == {<<k1, k2>> : k1 \in Kinds, k2 \in {"solid", "fluid"}}
 McKindsEmitQuick == {<<k1, "solid">> : k1 \in Kinds} \cup {<<"solid", "fluid">>, <<"fluid", "fluid">>}
+McKindsDeep  == {<<"solid", "solid">>, <<"solid", "fluid">>, <<"inert", "solid">>}
 McKindsQuick == {<<"solid", "solid">>, <<"solid", "fluid">>, <<"inert", "solid">>, <<"custom", "solid">>, <<"fluid", "inert">>, <<"void", "solid">>}
 \* <<Tin1, Thot1, Tin2, Thot2>>
 McTempsAll3  == {<<a, b, c, d>> : a \in 1..2, b \in 1..3, c \in 1..2, d \in 2..3}
